@@ -45,6 +45,17 @@ class Collection(Object):
         instance.cls = collection.Collection
         return instance
 
+    def _make_instance(self):
+        instance = object.__new__(collection.Collection)
+        # the counter of appended items is not stored as a row: a collection rebuilt from
+        # the database continues after its highest positional name, so that it can be
+        # appended to and written to its dictionary form again
+        positions = [
+            int(child.name) for child in self.children if (child.name or "").isdigit()
+        ]
+        instance.item_number = max(positions) + 1 if positions else 0
+        return instance
+
 
 class Model(Object):
     """
